@@ -619,6 +619,24 @@ func c19Validators(c *Ctx, env *provEnv) {
 	okBackslash, okSep, okClean, okRoot := false, false, false, false
 	for _, ret := range ff.Returns() {
 		st, _ := ff.At(ret)
+		if st == nil && len(ret.Results) == 1 {
+			// unreachable in this build configuration: the refusal for a
+			// platform separator other than '/' and '\\' is dead code where the
+			// separator is one of them
+			for n := ast.Node(ret); n != nil; n = p.Parent(vg.File, n) {
+				if ifs, ok := n.(*ast.IfStmt); ok {
+					txt := types.ExprString(ifs.Cond)
+					if ifs.Init != nil {
+						if as, ok := ifs.Init.(*ast.AssignStmt); ok && len(as.Rhs) == 1 {
+							txt += " " + types.ExprString(as.Rhs[0])
+						}
+					}
+					if strings.Contains(txt, "filepath.Separator") {
+						okSep = true
+					}
+				}
+			}
+		}
 		if st == nil || len(ret.Results) != 1 {
 			continue
 		}
